@@ -46,7 +46,9 @@ impl<'a> BasicType {
             | "else" | "enum" | "extern" | "false" | "fn" | "for" | "if" | "impl" | "in"
             | "let" | "loop" | "match" | "mod" | "move" | "mut" | "pub" | "ref" | "return"
             | "Self" | "self" | "static" | "struct" | "super" | "trait" | "true" | "type"
-            | "union" | "unsafe" | "use" | "where" | "while" => format!("{}_v", name),
+            | "union" | "unsafe" | "use" | "where" | "while" | "abstract" | "become" | "box"
+            | "do" | "final" | "macro" | "override" | "priv" | "try" | "typeof" | "unsized"
+            | "virtual" | "yield" => format!("{}_v", name),
             _ => name,
         }
     }
